@@ -75,13 +75,42 @@ def exc_name(e):
     return names[0]
 
 
+# A call that never returns (C01 / C18: 'fails to return') must not hang the check: every scenario runs under a limit far above its
+# deadline; a call still running then is recorded as DidNotReturn and its thread abandoned.  After two of them the client is not
+# driven any further (an abandoned call may spin for ever): the remaining scenarios report NotRun and are left out of the trace.
+HANGS = {"sync": 0, "async": 0}
+
+
+def _bounded(client, limit, fn, shape):
+    from vlib import bounded
+    if HANGS[client] >= 2:
+        return shape("NotRun", 0)
+    st, r = bounded.call(fn, limit)
+    if st == "hang":
+        HANGS[client] += 1
+        return shape("DidNotReturn", int(limit * 1000))
+    return r
+
+
+def run_case(client, cfg, strays, match, tick=TICK, reply="response"):
+    return _bounded(client, T * abs(tick) * 3 + 10, lambda: _run_case(client, cfg, strays, match, tick, reply), lambda r, el: (r, el))
+
+
+def run_flood(client, cfg, tick=TICK, pace=0.0003):
+    return _bounded(client, T * abs(tick) * 3 + 10, lambda: _run_flood(client, cfg, tick, pace), lambda r, el: (r, el))
+
+
+def run_pair(client, cfg, stray_at, second_reply_at):
+    return _bounded(client, T * TICK * 6 + 15, lambda: _run_pair(client, cfg, stray_at, second_reply_at), lambda r, el: [(r, el), (r, el)])
+
+
 def split_cfg(cn):
     """'v3-md5#report' -> ('v3-md5', 'report'): the kind of the matching reply rides on the configuration name"""
     base, _, kind = cn.partition("#")
     return base, (kind or "response")
 
 
-def run_case(client, cfg, strays, match, tick=TICK, reply="response"):
+def _run_case(client, cfg, strays, match, tick=TICK, reply="response"):
     from gufo.snmp import SnmpVersion
     sched = [(s, "stray") for s in strays] + ([(match, "match")] if match else [])
     agent = TimedAgent(cfg, sched, tick, reply)
@@ -121,7 +150,7 @@ def run_case(client, cfg, strays, match, tick=TICK, reply="response"):
     return result, int(el * 1000)
 
 
-def run_flood(client, cfg, tick=TICK, pace=0.0003):
+def _run_flood(client, cfg, tick=TICK, pace=0.0003):
     """No reply; well-formed non-matching datagrams keep arriving every ~0.3 ms from 0.6 T until 1.5 T - across the deadline, so that
     the receive loop computes its remaining time again and again around the moment it reaches zero.  Returns (result, elapsed_ms)."""
     from gufo.snmp import SnmpVersion
@@ -266,7 +295,7 @@ def run_signals(cfg, tick=TICK, every=0.12):
     return result, int(el * 1000)
 
 
-def run_pair(client, cfg, stray_at, second_reply_at):
+def _run_pair(client, cfg, stray_at, second_reply_at):
     """Two requests on ONE session: the first sees a stray at tick `stray_at` and times out; the second is answered at
     tick `second_reply_at` (< T) and must be delivered - whatever the first call left behind."""
     from gufo.snmp import SnmpVersion
@@ -522,7 +551,7 @@ def run(tier):
             p = pair_index.get(f)
             client, cn, sa, ra = p
             confirmed, evs = True, [rec.events[f - 1]]
-            for _ in range(2):
+            for _ in range(2 if evs[0]["result"] != "DidNotReturn" else 0):          # (a call that did not return at all needs no re-run)
                 r = run_pair(client, std[cn], sa, ra)
                 rec2 = trace.Recorder("c18-confirm")
                 rec2.emit(event(client, cn, (sa,), 0, *r[0]))
@@ -541,7 +570,7 @@ def run(tier):
         client, cn, (strays, match), tick = c
         evs = [rec.events[f - 1]]
         confirmed = True
-        for _ in range(2):
+        for _ in range(2 if evs[0]["result"] != "DidNotReturn" else 0):
             r = one(c)
             rec2 = trace.Recorder("c18-confirm")
             e2 = event(client, cn, strays, match, *r, tick=abs(tick))
